@@ -28,6 +28,7 @@ type Case struct {
 	NFlush    int          `json:"nflush"`
 	Holds     []sched.Hold `json:"holds,omitempty"`
 	Self      bool         `json:"self,omitempty"` // stage unknown: the first Tflush names its own tag, the others name that Tflush
+	Cycle     bool         `json:"cycle,omitempty"` // stage unknown: the Tflushes, written in one chunk, name each other's tags in a ring
 	// ProcOps: the implementation also provides go9p's SrvReqProcessOps (its
 	// SrvReqProcess / SrvReqRespond wrappers call req.Process() / req.PostProcess()).
 	ProcOps bool `json:"procops,omitempty"`
@@ -282,12 +283,22 @@ func run(c *Case) error {
 		}
 	case "unknown":
 		targetSent = false
+		var ring []byte
 		for i := 0; i < nflush; i++ {
 			old := uint16(0x4000 + i)
 			if c.Self {
 				old = 20 // mkFlush gives flush i the tag 20+i
 			}
+			if c.Cycle {
+				// each names the tag of the next one, which arrives after it
+				old = uint16(20 + (i+1)%nflush)
+				ring = append(ring, ref9p.Encode(mkFlush(i, old), c.Dotu)...)
+				continue
+			}
 			_ = cl.Send(mkFlush(i, old))
+		}
+		if c.Cycle {
+			_ = cl.SendRaw(ring)
 		}
 	default:
 		return fmt.Errorf("harness: unknown stage %q", c.Stage)
@@ -673,6 +684,9 @@ func execute(test string, c *Case) error {
 	if c.Self {
 		hx.Label("tflush names its own tag")
 	}
+	if c.Cycle {
+		hx.Label("tflushes name each other's tags")
+	}
 	if c.ProcOps {
 		hx.Label("implementation provides SrvReqProcessOps")
 	}
@@ -831,7 +845,15 @@ func TestPropStages(t *testing.T) {
 			c.NFlush = 2
 		}
 		if c.Stage == "unknown" {
-			c.Self = rapid.Bool().Draw(t, "self")
+			switch rapid.IntRange(0, 3).Draw(t, "unknownkind") {
+			case 0:
+				c.Self = true
+			case 1:
+				c.Cycle = true
+				if c.NFlush < 2 {
+					c.NFlush = rapid.IntRange(2, 3).Draw(t, "ring")
+				}
+			}
 		}
 		if c.Target == "auth" && (c.Stage == "held" || c.Stage == "multi" || c.Stage == "flush-of-flush") {
 			c.Stage = "same-chunk" // AuthInit has no gate
